@@ -19,6 +19,7 @@ from ..core.report import AnalysisError
 from ..core.tables import FiniteEval
 from ..expr.lift import Lifter, equal
 from ..core.template import find, has, require
+from ..core.canon import ct
 
 LEVEL = 'other'
 MP = 'emg3d/_multiprocessing.py'
@@ -68,6 +69,44 @@ def run(ctx):
     ctx.check('C19.L1.weights', 'extract_1d: midpoint weight is one',
               len(one) == 1, 'midpoint extraction does not use weight 1',
               ctx.where(mm, ex))
+    # L1.merge: merging of equal neighbouring layers
+    mg_ = [n for n in ast.walk(ex) if isinstance(n, ast.If) and
+           ast.unparse(n.test) == 'merge']
+    ctx.anchor(len(mg_) == 1, '`if merge:` in extract_1d')
+    mb = mg_[0]
+    hzm = find('_hz_ = np.diff(np.r_[self.grid.nodes_z[_ind_], '
+               'self.grid.nodes_z[-1]])', mb)
+    ctx.check('C19.L1.merge', 'extract_1d: thickness of merged layers',
+              len(hzm) == 1, 'the thickness of a merged layer is not the '
+              'distance between the top nodes of consecutive kept layers '
+              '(down to the last node)', ctx.where(mm, mb))
+    if hzm:
+        ind_ = hzm[0][1]['_ind_']
+        nz_ = find(f'{ind_} = _d_.nonzero()[0]', mb)
+        okm = len(nz_) == 1
+        sentinel = [n for n in ast.walk(mb) if isinstance(n, ast.Subscript)
+                    and ast.unparse(n.value) == 'np.r_' and isinstance(
+                        n.slice, ast.Tuple) and isinstance(
+                            n.slice.elts[0], (ast.Constant, ast.UnaryOp)) and
+                    isinstance(au.parent(n), ast.Call) and ast.unparse(
+                        au.parent(n).func) == 'np.diff' and
+                    'nodes_z' not in ast.unparse(n)]
+        first = False
+        if okm:
+            dn = nz_[0][1]['_d_']
+            first = any(has(f'{dn}[0] = _c_', st_) for st_ in mb.body
+                        if st_.lineno < nz_[0][0].lineno and
+                        not isinstance(st_, ast.For)) or has(
+                f'{dn} = np.r_[1, __]', mb) or has(f'{dn} = np.r_[1.0, __]',
+                                                   mb)
+        ctx.check('C19.L1.merge', 'extract_1d: the first layer is always '
+                  'kept', okm and first and not sentinel,
+                  'whether the first layer is kept is decided by comparing '
+                  f'its value with a constant '
+                  f'(`{ast.unparse(sentinel[0]) if sentinel else ""}`): a '
+                  'layer whose stored value equals that constant (e.g. 0.1 '
+                  'S/m as log10 = -1) is dropped and all interfaces shift',
+                  ctx.where(mm, sentinel[0] if sentinel else mb))
     # L1.flag: cylinder/prism fall back to the midpoint cell when the ellipse
     # selects nothing; from then on the fallback flag, not `method`, must
     # decide between averaging and the single cell
@@ -276,6 +315,23 @@ def run(ctx):
                   'is an offset from the source and the 1D response / '
                   f'extraction point must use {R}.coordinates_abs({S}) / '
                   f'{R}.center_abs({S})', ctx.where(mp, raw[0] if raw else fn_))
+    pair_ok = False
+    for d in ast.walk(ly):
+        if isinstance(d, ast.Dict):
+            kv_ = {k.value: ast.unparse(v).replace(' ', '')
+                   for k, v in zip(d.keys, d.values)
+                   if isinstance(k, ast.Constant)}
+            if 'mrec' in kv_:
+                pair_ok = kv_['mrec'] == ct(f"{rv}.xtype != 'electric'")
+    src_ok = any(isinstance(d, ast.Dict) and any(
+        isinstance(k, ast.Constant) and k.value == 'msrc' and
+        ast.unparse(v).replace(' ', '') ==
+        ct(f"{sname}.xtype != 'electric'")
+        for k, v in zip(d.keys, d.values)) for d in ast.walk(ly))
+    ctx.check('C19.L3.absolute', 'layered: msrc / mrec from source / '
+              'receiver type', pair_ok and src_ok, 'the magnetic flags of the '
+              '1D modeller are not taken from the source for msrc and from '
+              'the receiver for mrec', ctx.where(mp, ly))
     ctx.check('C19.L3.absolute', 'layered: receiver handed to empymod',
               has(f"{{__: __, 'rec': {rv}.coordinates_abs({sname})}}", ly) or
               any(isinstance(d, ast.Dict) and any(
